@@ -256,7 +256,7 @@ def check_call_sites(rep, prog):
         rep.check(ind is not None and isinstance(ind, ast.Constant) and isinstance(ind.value, int) and ind.value > 0 and
                   set(kws) <= {"indent", "ensure_ascii", "default"}, rule, "json.dumps at line %d uses a positive indent and no option that changes the line grammar" % cs.node.lineno,
                   cs.qual, cs.node, "json.dumps options %s change the text layout the alignment pass relies on" % sorted(kws), node=cs.node, file=cs.module.rel)
-    rep.floor("json.dumps sites in peltool", len(sites), 2)
+    rep.floor("json.dumps sites in peltool", len(sites), 1)
     fm = FullMain(prog, opaque=["parsePEL", "parsePELSummary", "generatePH", "generateUH", "considerPEL", "prettyPrint"])
     n = 0
     for e in fm.events:
